@@ -298,8 +298,9 @@ def r7_guards_and_list_columns(ctx):
         raise Unrecognised(f"{cf.where}: the conversion of list-valued columns is guarded by conditions the checker does not know: {unknown}")
 
 
-from ..through_time import make_rule as _mk_tt
+from ..through_time import make_rule as _mk_tt, make_t2 as _mk_t2
 _through_time = _mk_tt("C19")
+_small_edits = _mk_t2("C19")
 
 def _lazy_tables(ctx):
     from .c05 import r1_aligned_views
@@ -320,6 +321,7 @@ RULES = [
     ("C19-R5", r5_string_array),
     ("C19-R7", r7_guards_and_list_columns),
     ("C19-T1", _through_time),
+    ("C19-T2", _small_edits),
     ("C19-R8", _lazy_tables),
     ("C19-R9", _mutable_defaults),
 ]
